@@ -309,9 +309,9 @@ def _build_msg(mid, auth, nq, na, nns, nadd, ia, ib, ic, t1, c1, ttl, x1, s1, s2
         m.answers.append(L.RRHeader(b(na1), L.MX, c1, ttl, L.Record_MX(x1, b(nc), ttl)))
         kinds.append("MX")
     if na >= 2:
-        r = L.Record_A(ttl=ttl + 1)
-        r.address = b((s1 + "\x0a\x00\x00\x01")[:4])
-        m.answers.append(L.RRHeader(b(nb), L.A, 1, ttl + 1, r))
+        r = L.Record_A(ttl=x1)
+        r.address = b(s1 + "\x00\x01")
+        m.answers.append(L.RRHeader(b(nb), L.A, 1, x1, r))
         kinds.append("A")
     if nns >= 1:
         m.authority.append(L.RRHeader(b("org"), L.NS, 1, ttl, L.Record_NS(b(nc), ttl)))
@@ -376,7 +376,7 @@ def msg_rt(mid: int, auth: int, nq: int, na: int, nns: int, nadd: int, ia: int, 
     pre: 0 <= nq <= 2 and 0 <= na <= 2 and 0 <= nns <= 1 and 0 <= nadd <= 1
     pre: 0 <= ia < B['names'] and 0 <= ib < B['names'] and 0 <= ic < B['names']
     pre: 0 <= t1 < 65536 and 0 <= c1 < 65536 and 0 <= ttl < 2 ** 32 - 1 and 0 <= x1 < 65536
-    pre: len(s1) <= 2 and len(s2) <= 2 and all(ord(c) < 256 for c in s1 + s2)
+    pre: len(s1) == 2 and len(s2) == B['txt'] and all(ord(c) < 256 for c in s1 + s2)
     post: _
     """
     m, kinds = _build_msg(mid, auth, nq, na, nns, nadd, ia, ib, ic, t1, c1, ttl, x1, s1, s2, 512)
@@ -396,7 +396,7 @@ def msg_rt(mid: int, auth: int, nq: int, na: int, nns: int, nadd: int, ia: int, 
             and _prefix_rrs(kd, m.additional, d.additional, True))
 
 
-BOUNDS = {"quick": {"lab": 2, "names": 2}, "thorough": {"lab": 3, "names": 4}}
+BOUNDS = {"quick": {"lab": 2, "names": 2, "txt": 1}, "thorough": {"lab": 3, "names": 4, "txt": 2}}
 B = {}
 HARNESSES = [H(name_rt, shards=[("len(l1) == 2", "len(l2) == 2", "len(l3) == 1")]),
              H(query_rt),
